@@ -92,7 +92,8 @@ Blank == [pc |-> "dead", ver |-> 1, firstPdu |-> TRUE, needSess |-> TRUE, sess |
           iv |-> DefaultIv, mode |-> "min_max", my |-> {}, oth |-> {}, buf |-> <<>>, now |-> 0, lastOk |-> 0,
           ack |-> None, owed |-> None, alt |-> None, mayDown |-> FALSE, mirror |-> {}, expired |-> FALSE,
           goodSince |-> 0, target |-> {}, converged |-> FALSE, lastq |-> None, kf |-> {}, fast |-> FALSE, back |-> "resp1",
-          afSeen |-> FALSE, afalts |-> {}, snap |-> BlankAlt]
+          afSeen |-> FALSE, afalts |-> {}, snap |-> BlankAlt,
+          synced |-> FALSE]      \* (recorded executions only) some exchange has completed since the socket was started
 Res(c, b) == [c |-> c, bad |-> b]
 
 Expired(c, t) == c.lastOk # 0 /\ t - c.lastOk > c.iv.e.n
@@ -351,7 +352,7 @@ Common(c, c2, e) ==
                   c2.now - c2.goodSince <= Cap(c2.iv.r.n) + Cap(c2.iv.e.n) + 4 * Cap(c2.iv.t.n) + 240>>,
        <<"C13", c2.ver <= 1>>,
        (* the manager reads last_update # 0 as "this socket holds synchronised data": true only after a completed exchange *)
-       <<"STUB", (Has(e, "dbg") /\ e.dbg.lu # 0 /\ c2.pc \notin {"dead", "stopping"}) => c2.lastOk # 0>>})
+       <<"STUB", (Has(e, "dbg") /\ e.dbg.lu # 0 /\ c2.pc \notin {"dead", "stopping"}) => (c.synced \/ c2.synced)>>})
 StepResult(c, e) ==
   LET c0 == AfEnter(c, e)
       pre == IF c0.afalts = {} THEN [c |-> c0, bad |-> {}]
@@ -359,6 +360,11 @@ StepResult(c, e) ==
              ELSE IF e.e = "open" THEN AfOpen(c0, e)
              ELSE IF e.e \in {"stop", "reset"} THEN [c |-> [c0 EXCEPT !.afalts = {}], bad |-> {}]
              ELSE [c |-> c0, bad |-> {}]
-      r == Handle(pre.c, e)
+      r0 == Handle(pre.c, e)
+      (* the ghost behind the STUB monitor is kept for recorded executions only (events with diagnostics), so the model *)
+      (* checker's state space is unaffected; an expiry purge does not reset it (the implication is one-directional)     *)
+      r == IF ~Has(e, "dbg") THEN r0
+           ELSE [r0 EXCEPT !.c.synced = IF e.e \in {"stop", "init", "reset"} THEN FALSE
+                                        ELSE (pre.c.synced \/ (pre.c.pc = "resp" /\ r0.c.pc = "est"))]
   IN [c |-> r.c, bad |-> pre.bad \cup r.bad \cup Common(c, r.c, e)]
 =============================================================================
